@@ -261,7 +261,8 @@ func normalize(opts *options, from interface{}) (*Config, Error) {
 
 	switch vFrom.Type() {
 	case tConfig:
-		return vFrom.Addr().Interface().(*Config), nil
+		// a Config passed by value is not addressable
+		return pointerize(tConfigPtr, tConfig, vFrom).Interface().(*Config), nil
 	case tConfigMap:
 		return normalizeMap(opts, vFrom)
 	default:
@@ -485,7 +486,9 @@ func normalizeValue(
 		d := v.Interface().(time.Duration)
 		return newString(ctx, opts.meta, d.String()), nil
 	case tRegexp:
-		r := v.Addr().Interface().(*regexp.Regexp)
+		// a Regexp held by value (in a map, an interface or a struct passed by
+		// value) is not addressable
+		r := pointerize(reflect.PtrTo(tRegexp), tRegexp, v).Interface().(*regexp.Regexp)
 		return newString(ctx, opts.meta, r.String()), nil
 	}
 
